@@ -886,6 +886,10 @@ func concurrentPart(c *vh.Ctx) {
 	if failed {
 		return
 	}
+	// forced overlap: first lookups of a fresh name released together with its registration
+	if !overlapPart(c, self, false) {
+		return
+	}
 	// the resolution surface behind the registry maps (class-path manager, parser clones, autoload, TempVM)
 	if !resolvePart(c, self, false) {
 		return
@@ -928,6 +932,9 @@ func concurrentPart(c *vh.Ctx) {
 				return
 			}
 		}
+	}
+	if !overlapPart(c, rb, true) {
+		return
 	}
 	// the resolution surface under the detector (find / parse / autoload / TempVM)
 	resolvePart(c, rb, true)
@@ -977,6 +984,23 @@ func Run(c *vh.Ctx) {
 			var cc cpmCase
 			json.Unmarshal(c.ReplayRaw, &cc)
 			cpmSequentialPart(c, m, cc.Ops)
+		case "overlap":
+			var cfg overlapCfg
+			json.Unmarshal(c.ReplayRaw, &cfg)
+			bin := vh.Self()
+			if cfg.Race {
+				if rb, err := buildRace(c); err == nil {
+					bin = rb
+				} else {
+					c.Note("race build failed: %v", err)
+				}
+			}
+			for i := 0; i < 20; i++ {
+				if !overlapOnce(c, bin, cfg) {
+					break
+				}
+				cfg.Seed++
+			}
 		case "resolve":
 			var cfg resolveCfg
 			json.Unmarshal(c.ReplayRaw, &cfg)
